@@ -236,7 +236,7 @@ GRAMMAR = r"""
     _namelist: name ( "," name )*
     name: ( /[a-z_][a-z0-9_]*/i | /\\[^\t \r\n]+[\t \r\n]/i | /[0-9]+'[bdh][0-9a-f]+/i )
     %import common.NEWLINE
-    COMMENT: /\/\*(\*(?!\/)|[^*])*\*\// | /\(\*(\*(?!\))|[^*])*\*\)/ |  "//" /(.)*/ NEWLINE
+    COMMENT: /\/\*(\*(?!\/)|[^*])*\*\// | /\(\*(\*(?!\))|[^*])*\*\)/ |  "//" /[^\n]*/
     %ignore ( /\r?\n/ | COMMENT )+
     %ignore /[\t \f]+/
     """
